@@ -32,6 +32,10 @@ PoolStale ==
                 IF empty THEN <<>> ELSE <<StuN(Some(19), dep, arr, None), StuN(Some(20), Some(5), None, None)>>)>>)
        : ts \in {None, Some(3)}, a \in {None, Some(FALSE), Some(TRUE)}, dep \in Times, arr \in Times, empty \in Bools}
     \cup {M(Some(3), <<TUx([NoTD EXCEPT !.id = Some(2)], None, <<StuN(Some(19), Some(5), None, None)>>)>>)}   \* plain trip in the past: kept
+    \cup (* the first stop is skipped / carries no data: it is the first stop all the same *)
+    {M(Some(3), <<TUx([NoTD EXCEPT !.id = Some(1064650), !.route = Some(2), !.nyct = Nyct(Some(1), a, Some(1))], None,
+                <<[StuN(Some(19), d1, None, None) EXCEPT !.sr = Some(r)], StuN(Some(20), d2, None, None)>>)>>)
+       : a \in {None, Some(FALSE)}, r \in {1, 2}, d1 \in {None, Some(5), Some(7)}, d2 \in {Some(5), Some(7)}}
     \cup (* a departure event that is present but carries no time (a delay only): the arrival time decides *)
     {M(Some(3), <<TUx([NoTD EXCEPT !.id = Some(1064650), !.route = Some(2), !.nyct = Nyct(Some(1), a, Some(1))], None,
                 <<[StuN(Some(19), None, arr, None) EXCEPT !.dep = Some([NoEv EXCEPT !.delay = Some(1)])], StuN(Some(20), Some(5), None, None)>>)>>)
